@@ -55,6 +55,44 @@ def run(ctx):
         ctx.inst("C09.R10", "grammar#list==record", same_, "`list` is `record` with [ ] and list_item for { } and record_item: %s" % same_, "blots-core/src/grammar.pest")
     from rules import panics
     panics.comment_slots_accepted(ctx, "C09.R7", [core, cli, wasm], G)
+    # every rule of the grammar that can have a comment child has a builder arm that looks at comment children
+    from lib import hir as H12
+    ctx.rule("C09.R12", "wherever the grammar lets a comment be a child of a construct, the AST builder's arm for that construct handles comment children (it names Rule::comment / Rule::eol_comment): a comment position added to the grammar alone is accepted by the parser and dropped by the builder", floor=6)
+    hb = core.hir_fn("blots_core::expressions::pairs_to_expr_inner")
+    arms12 = {}
+    for m_ in H12.walk(hb["body"]):
+        if H12.kind(m_) == "Match" and (m_["scrut"].get("ty") or "").endswith("parser::Rule"):
+            for a_ in m_["arms"]:
+                for v_ in H12.pat_variants(a_["pat"]):
+                    arms12.setdefault(H12.last(v_), []).append(a_)
+    for r_ in G.order:
+        if r_ in ("statement", "program", "input") or G.ty(r_) == "silent":
+            continue
+        try:
+            kids = G.children(G.expr(r_))
+        except Exception:
+            continue
+        ck = sorted(k_ for k_ in kids if k_ in ("comment", "eol_comment"))
+        if not ck:
+            continue
+        if r_ not in arms12:
+            ctx.inst("C09.R12", "rule=%s" % r_, None, "no builder arm found for %s (comment children: %s)" % (r_, ck), "blots-core/src/grammar.pest")
+            continue
+        named = any((H12.path_def(x) or "").endswith("parser::Rule::comment") or (H12.path_def(x) or "").endswith("parser::Rule::eol_comment") for a_ in arms12[r_] for x in H12.walk(a_["body"]) if H12.kind(x) == "Path") or \
+            any(any(H12.last(v_) in ("comment", "eol_comment") for v_ in H12.pat_variants(a2["pat"])) for a_ in arms12[r_] for m2 in H12.walk(a_["body"]) if H12.kind(m2) == "Match" for a2 in m2["arms"])
+        delegated = any(H12.kind(x) in ("Call", "MethodCall") and (x.get("def") or "").startswith("blots_core::") and not (x.get("def") or "").endswith("pairs_to_expr_inner") and any("pest::iterators" in (y.get("ty") or "") for a3 in x.get("args", []) for y in H12.walk(a3) if isinstance(y, dict)) for a_ in arms12[r_] for x in H12.walk(a_["body"]))
+        # ... or takes its children by position, as many as the grammar can give it
+        def bears(e_):
+            return any(x_["k"] == "ident" and x_["v"] in G.rules and x_["v"] not in ("WHITESPACE", "NEWLINE", "plain_newline") and (G.ty(x_["v"]) != "silent" or bears(G.expr(x_["v"]))) for x_ in G.walk(e_))
+        try:
+            n_slots = sum(1 for e_ in G.seq(G.expr(r_)) if bears(e_))
+        except Exception:
+            n_slots = None
+        nexts12 = max((sum(1 for x in H12.walk(a_["body"]) if H12.kind(x) == "MethodCall" and x["name"] == "next" and "Pairs<" in (x.get("recv_ty") or "")) for a_ in arms12[r_]), default=0)
+        loops12 = any(H12.kind(x) == "For" and "Pairs<" in (H12.strip(x["iter"]).get("ty") or "") for a_ in arms12[r_] for x in H12.walk(a_["body"]))
+        if not named and n_slots is not None and (nexts12 >= n_slots or loops12) and G.expr(r_)["k"] == "seq":
+            named = True
+        ctx.inst("C09.R12", "rule=%s" % r_, True if named else (None if delegated else False), "the grammar puts %s below %s; the builder's arm names a comment rule or takes every child slot by position: %s" % (ck, r_, named), H12.loc(arms12[r_][0]["body"]))
     panics.comment_text_whole(ctx, "C09.R8", core)
     panics.driver_appends_only(ctx, "C09.R9", [core, cli, wasm])
     # ---- R6 a comment is the rest of the physical line
